@@ -1,17 +1,25 @@
 import ShroudVerif.Model.PyDispatch
+import ShroudVerif.Model.PyList
+import ShroudVerif.Gen.PyStmts
 import Driver.Codec
 /-!
 Line protocol for the Python dispatch model.
 
-  param  := name,intent(0 in|1 inout|2 out),hasDefault,implied,hidden,unit-text(code points '.'-joined, '-' empty),accepted-tags('.'-joined, '-' empty)
+  param  := name,intent(0 in|1 inout|2 out),hasDefault,implied,hidden,unit-text(code points '.'-joined, '-' empty),exact('-' or the value tag an `O!` unit demands)
+            the value classes a unit accepts come from the regenerated table Gen.PyStmts.unitClasses
   params := param ';' ... | '~'
   val    := tag.id          vals := val ',' ... | '~'
   kw     := 'none' | '~' | name=tag.id ',' ...
   src    := kwds | args
 
-  gen  <kind: ctor|function|subroutine> <params>
+  gen  <kind: ctor|function|subroutine> <params> [<result build unit> <name=build unit;...>]
   call <src> <params> <vals> <kw>
   disp <src> <params '|' params ...> <vals> <kw>
+
+  obj := a:<val> | s:<vals>
+  getlist <accepted tags '.'-joined> <obj>            get_from_object_<T>_list
+  fill    <accepted tags> <insize> <obj>              fill_from_PyObject_<T>_list (buffer cells are printed as b<i>)
+  charptr <obj>                                       get_from_object_charptr (tags: 1 str, 6 bytes, 4 None)
 -/
 namespace Driver
 open Shroud.PyDispatch
@@ -24,7 +32,9 @@ def decParam (s : String) : Param :=
   | [n, i, d, im, h, u, a] =>
     { name := n.toNat!, intent := (if i == "0" then .in_ else if i == "1" then .inout else .out),
       hasDefault := d == "1", implied := im == "1", hidden := h == "1",
-      unit := { text := decNats u, accepts := decNats a } }
+      unit := { text := decNats u,
+                accepts := if a == "-" then (Shroud.PyTables.lookupUnit Shroud.Gen.PyStmts.unitClasses (decNats u)).getD []
+                           else [a.toNat!] } }
   | _ => { name := 0, intent := .in_, hasDefault := false, implied := false, hidden := false,
            unit := { text := [], accepts := [] } }
 
@@ -78,8 +88,16 @@ def encShape : PyRet → String
   | .single _ => "single"
   | .tuple _ => "tuple"
 
-def handleGen : List String → String
-  | [kind, params] =>
+def decUnitMap (s : String) : Nat → List Nat :=
+  let tbl : List (Nat × List Nat) := if s == "~" then [] else (s.splitOn ";").map (fun e =>
+    match e.splitOn "=" with
+    | [n, u] => (n.toNat!, decNats u)
+    | _ => (0, []))
+  fun n => match tbl.find? (fun e => e.1 == n) with
+    | some e => e.2
+    | none => []
+
+def genLine (kind params : String) (build : Option (String × String)) : String :=
     let ps := decParams params
     let k : Kind := if kind == "ctor" then .ctor else if kind == "function" then .function else .subroutine
     let cases := (defaultCalls 0 0 ps).map (fun c => s!"{c.1}:{c.2}")
@@ -92,7 +110,19 @@ def handleGen : List String → String
     " hasdef=" ++ (if hasDefaultArg ps then "1" else "0") ++
     s!" window={w.1}-{w.2}" ++
     " build=" ++ (if bt.isEmpty then "-" else ",".intercalate (bt.map encItem)) ++
-    " shape=" ++ encShape (returnShape k ps)
+    " shape=" ++ encShape (returnShape k ps) ++
+    (match build with
+     | none => ""
+     | some (ru, um) =>
+       let bf := buildFormat k ps (decNats ru) (decUnitMap um)
+       let n : String := match Shroud.PyTables.buildArity bf with
+         | some us => toString (Shroud.PyTables.sum us)
+         | none => "bad"
+       " bfmt=" ++ encNats "." bf ++ " bargs=" ++ n)
+
+def handleGen : List String → String
+  | [kind, params] => genLine kind params none
+  | [kind, params, ru, um] => genLine kind params (some (ru, um))
   | _ => "bad-op"
 
 def handleCall : List String → String
@@ -104,6 +134,40 @@ def handleDisp : List String → String
   | [src, ovs, vals, kw] =>
     let r := multiDispatch (decSrc src) ((ovs.splitOn "|").map decParams) (decVals vals) (decKw kw)
     (match r.1 with | some i => toString i | none => "none") ++ " " ++ encOutcome r.2
+  | _ => "bad-op"
+
+open Shroud.PyList in
+def decObj (s : String) : Obj Val :=
+  if s.startsWith "a:" then .atom (decVal (s.drop 2).toString) else .seq (decVals (s.drop 2).toString)
+
+open Shroud.PyList in
+def encOut (show_ : β → String) : Out β → String
+  | .ok arr h => "ok " ++ (if arr.isEmpty then "~" else ",".intercalate (arr.map show_)) ++ s!" {h.live} {h.owned} {h.seqRefs}"
+  | .typeError .notIterable h => s!"err iter {h.live} {h.owned} {h.seqRefs}"
+  | .typeError (.badItem i) h => s!"err {i} {h.live} {h.owned} {h.seqRefs}"
+
+def tagConv (acc : List Nat) (v : Val) : Option Nat := if acc.contains v.tag then some v.id else none
+
+open Shroud.PyList in
+def handleGetList : List String → String
+  | [acc, obj] => encOut (fun (n : Nat) => s!"v{n}") (getFromObjectList (tagConv (decNats acc)) (decObj obj))
+  | _ => "bad-op"
+
+open Shroud.PyList in
+def handleFill : List String → String
+  | [acc, n, obj] =>
+    let buf : List (Nat ⊕ Nat) := (List.range n.toNat!).map Sum.inr
+    let conv : Val → Option (Nat ⊕ Nat) := fun v => (tagConv (decNats acc) v).map Sum.inl
+    encOut (fun (x : Nat ⊕ Nat) => match x with | .inl k => s!"v{k}" | .inr k => s!"b{k}") (fillFromObjectList conv buf (decObj obj))
+  | _ => "bad-op"
+
+open Shroud.PyList in
+def handleCharPtr : List String → String
+  | [obj] =>
+    let toChar : Val → CharObj := fun v =>
+      if v.tag == 1 then .str [v.id] else if v.tag == 6 then .bytes [v.id] else if v.tag == 4 then .none else .other
+    let conv : Val → Option String := fun v => (charConv (toChar v)).map (fun d => match d with | some _ => s!"v{v.id}" | none => "null")
+    encOut id (getFromObjectList conv (decObj obj))
   | _ => "bad-op"
 
 end Driver
